@@ -1,7 +1,7 @@
 (** C15 - lemmas behind Props/C15.v: the refutation witnesses (identity hash) of sync_exact / sync_idem, the
     policy batch (no dangling reference before the -X lines), and the composition of a whole Run from a
     kernel without GLX-owned state.  The ipset part is in PolicySetsP.v, the pod-chain part in PolicyPodsP.v. *)
-From Coq Require Import List Ascii String NArith Bool Lia.
+From Coq Require Import List Ascii String NArith Bool Lia DecimalString DecimalN FinFun.
 From Galaxy.Base Require Import Strs.
 From Galaxy.Model Require Import Nets Netfilter Policy PolicySpec.
 From Galaxy.Proofs Require Import NetfilterP PolicySetsP PolicyPodsP.
@@ -784,3 +784,226 @@ Proof.
     rewrite Lk, mem_app, Es, orb_false_r.
     destruct (mem x (map (chain_of H) pols)) eqn:Em; [apply mem_chain_of_plcy in Em; congruence|reflexivity].
 Qed.
+
+(** ------------------------------------------------------------------ set names are distinct when the hash
+    does not collide on the policy keys *)
+Lemma pdec_inj a b : print_dec a = print_dec b -> a = b.
+Proof.
+  unfold print_dec. intros H. apply (f_equal string_of_list_ascii) in H.
+  rewrite !string_of_list_ascii_of_string in H. apply (f_equal NilEmpty.uint_of_string) in H.
+  rewrite !NilEmpty.usu in H. inversion H as [H1]. apply (f_equal N.of_uint) in H1.
+  rewrite !DecimalN.Unsigned.of_to in H1. exact H1.
+Qed.
+
+Lemma uint_str_free d : free "-"%char (list_ascii_of_string (NilEmpty.string_of_uint d)).
+Proof. unfold free. induction d; simpl; intros Hin; try (destruct Hin as [E|Hin]; [discriminate E|auto]); auto. Qed.
+
+Lemma print_dec_free n : free "-"%char (print_dec n).
+Proof. apply uint_str_free. Qed.
+
+Lemma NoDup_app_intro {A} (a b : list A) :
+  NoDup a -> NoDup b -> (forall x, In x a -> In x b -> False) -> NoDup (a ++ b).
+Proof.
+  induction a as [|x a IH]; simpl; intros Ha Hb Hd; [exact Hb|].
+  inversion Ha as [|? ? Hx Ha']. subst. constructor.
+  - intros Hin. apply in_app_or in Hin. destruct Hin as [Hin|Hin]; [contradiction|].
+    apply (Hd x); [left; reflexivity|exact Hin].
+  - apply IH; [exact Ha'|exact Hb|]. intros y H1 H2. apply (Hd y); [right; exact H1|exact H2].
+Qed.
+
+Lemma NoDup_flat_map_keyed {A B K} (f : A -> list B) (key : A -> K) (kb : B -> K) l :
+  NoDup (map key l) -> (forall a, In a l -> NoDup (f a)) ->
+  (forall a b, In a l -> In b (f a) -> kb b = key a) -> NoDup (flat_map f l).
+Proof.
+  induction l as [|a l IH]; simpl; intros Hk Hf Hkb; [constructor|].
+  inversion Hk as [|? ? Ha Hk']. subst. apply NoDup_app_intro.
+  - apply Hf. left. reflexivity.
+  - apply IH; [exact Hk'|intros a' Ha'; apply Hf; right; exact Ha'|].
+    intros a' b Ha' Hb. apply Hkb; [right; exact Ha'|exact Hb].
+  - intros b H1 H2. apply in_flat_map in H2. destruct H2 as [a' [Ha' Hb]].
+    apply Ha. rewrite <- (Hkb a b (or_introl eq_refl) H1). rewrite (Hkb a' b (or_intror Ha') Hb).
+    apply in_map. exact Ha'.
+Qed.
+
+Lemma map_flat_map {A B C} (g : B -> C) (f : A -> list B) l : map g (flat_map f l) = flat_map (fun a => map g (f a)) l.
+Proof. induction l as [|a l IH]; simpl; [reflexivity|]. rewrite map_app, IH. reflexivity. Qed.
+
+(** decoding a set name: kind, printed index ("" for the selector set), hash *)
+Definition name_parts (n : str) : option (str * str * str) :=
+  match n with
+  | "G"%char :: "L"%char :: "X"%char :: "-"%char :: r =>
+      match cut "-"%char r with
+      | Some (k, rest) =>
+          if str_eqb k (L "ip") then Some (k, [], rest)
+          else match cut "-"%char rest with Some (i, h) => Some (k, i, h) | None => None end
+      | None => None
+      end
+  | _ => None
+  end.
+
+Section SetNames.
+Variable H : str -> str.
+
+Lemma parts_sel x : name_parts (sel_set_name H x) = Some (L "ip", [], H (np_key x)).
+Proof.
+  unfold sel_set_name.
+  change (L "GLX-ip-" ++ H (np_key x)) with ("G"%char :: "L"%char :: "X"%char :: "-"%char :: (L "ip" ++ "-"%char :: H (np_key x))).
+  unfold name_parts. rewrite cut_app by (unfold free; simpl; intuition discriminate).
+  rewrite str_eqb_refl. reflexivity.
+Qed.
+
+Lemma parts_rule kind i x : free "-"%char kind -> kind <> L "ip" ->
+  name_parts (rule_set_name H kind i x) = Some (kind, print_dec i, H (np_key x)).
+Proof.
+  intros Hf Hk. unfold rule_set_name.
+  change (L "GLX-" ++ kind ++ L "-" ++ print_dec i ++ L "-" ++ H (np_key x))
+    with ("G"%char :: "L"%char :: "X"%char :: "-"%char :: (kind ++ "-"%char :: (print_dec i ++ "-"%char :: H (np_key x)))).
+  unfold name_parts. rewrite cut_app by exact Hf. apply str_eqb_neq in Hk. rewrite Hk.
+  rewrite cut_app by apply print_dec_free. reflexivity.
+Qed.
+
+Definition rule_kind (k : str) : Prop := k = L "sip" \/ k = L "snet" \/ k = L "dip" \/ k = L "dnet".
+Lemma rule_kind_ok k : rule_kind k -> free "-"%char k /\ k <> L "ip".
+Proof. intros [E|[E|[E|E]]]; subst k; (split; [unfold free; simpl; intuition discriminate|discriminate]). Qed.
+
+Lemma parts_rule' k i x : rule_kind k -> name_parts (rule_set_name H k i x) = Some (k, print_dec i, H (np_key x)).
+Proof. intros Hk. destruct (rule_kind_ok k Hk). apply parts_rule; assumption. Qed.
+
+Definition idx_names (c : cluster) (x : netpol) (k1 k2 : str) (i : N) (rules : list prule) : list str :=
+  map cs_name (flat_map crule_sets (map_idx (peer_rule H c x k1 k2) i rules)).
+
+Lemma idx_names_cons c x k1 k2 i r rules :
+  idx_names c x k1 k2 i (r :: rules) =
+  map cs_name (crule_sets (peer_rule H c x k1 k2 i r)) ++ idx_names c x k1 k2 (i + 1) rules.
+Proof. unfold idx_names. simpl. rewrite map_app. reflexivity. Qed.
+
+Lemma head_names c x k1 k2 i r n :
+  In n (map cs_name (crule_sets (peer_rule H c x k1 k2 i r))) ->
+  n = rule_set_name H k1 i x \/ n = rule_set_name H k2 i x.
+Proof.
+  unfold peer_rule, crule_sets. cbn [cr_ip cr_net].
+  destruct (cat_opt (map (peer_ip_entries c) (pr_peers r))); destruct (cat_opt (map peer_net_entries (pr_peers r)));
+    simpl; intros Hin; repeat (destruct Hin as [Hin|Hin]; [subst n; auto|]); destruct Hin.
+Qed.
+
+Lemma head_nodup c x k1 k2 i r : rule_kind k1 -> rule_kind k2 -> k1 <> k2 ->
+  NoDup (map cs_name (crule_sets (peer_rule H c x k1 k2 i r))).
+Proof.
+  intros H1 H2 Hne. unfold peer_rule, crule_sets. cbn [cr_ip cr_net].
+  destruct (cat_opt (map (peer_ip_entries c) (pr_peers r))); destruct (cat_opt (map peer_net_entries (pr_peers r)));
+    simpl; repeat constructor; simpl; try tauto.
+  intros [E|[]]. apply (f_equal name_parts) in E. rewrite !parts_rule' in E by assumption. inversion E. congruence.
+Qed.
+
+Lemma idx_names_In c x k1 k2 rules : forall i n, In n (idx_names c x k1 k2 i rules) ->
+  exists k j, (k = k1 \/ k = k2) /\ (i <= j)%N /\ n = rule_set_name H k j x.
+Proof.
+  induction rules as [|r rules IH]; intros i n Hin; [destruct Hin|].
+  rewrite idx_names_cons in Hin. apply in_app_or in Hin. destruct Hin as [Hin|Hin].
+  - apply head_names in Hin. destruct Hin as [E|E]; [exists k1, i|exists k2, i]; repeat split; auto; lia.
+  - destruct (IH _ _ Hin) as [k [j [Hk [Hj E]]]]. exists k, j. repeat split; auto; lia.
+Qed.
+
+Lemma idx_names_nodup c x k1 k2 rules : rule_kind k1 -> rule_kind k2 -> k1 <> k2 ->
+  forall i, NoDup (idx_names c x k1 k2 i rules).
+Proof.
+  intros H1 H2 Hne. induction rules as [|r rules IH]; intros i; [constructor|].
+  rewrite idx_names_cons. apply NoDup_app_intro; [apply head_nodup; assumption|apply IH|].
+  intros n Ha Hb. apply head_names in Ha. apply idx_names_In in Hb. destruct Hb as [k [j [Hk [Hj E]]]].
+  assert (rule_kind k) as Hrk by (destruct Hk; subst; assumption).
+  assert (name_parts n = Some (k, print_dec j, H (np_key x))) as P1 by (rewrite E; apply parts_rule'; exact Hrk).
+  destruct Ha as [Ea|Ea]; rewrite Ea, parts_rule' in P1 by assumption; inversion P1 as [[Ek Ei]];
+    apply pdec_inj in Ei; lia.
+Qed.
+
+Definition policy_names (c : cluster) (x : netpol) : list str := map cs_name (cpolicy_sets (compile_one H c x)).
+
+Lemma policy_names_eq c x : policy_names c x =
+  sel_set_name H x ::
+  (if affects_in x then idx_names c x (L "sip") (L "snet") 0 (np_ingress x) else []) ++
+  (if affects_eg x then idx_names c x (L "dip") (L "dnet") 0 (np_egress x) else []).
+Proof.
+  unfold policy_names, cpolicy_sets, compile_one. cbn [cp_sel cp_in cp_eg map cs_name]. rewrite map_app.
+  destruct (affects_in x); destruct (affects_eg x); reflexivity.
+Qed.
+
+Lemma policy_names_parts c x n : In n (policy_names c x) ->
+  exists k i, name_parts n = Some (k, i, H (np_key x)).
+Proof.
+  rewrite policy_names_eq. intros [E|Hin]; [subst n; rewrite parts_sel; eauto|].
+  apply in_app_or in Hin. destruct Hin as [Hin|Hin].
+  - destruct (affects_in x); [|destruct Hin]. apply idx_names_In in Hin. destruct Hin as [k [j [Hk [_ E]]]].
+    subst n. rewrite parts_rule'; [eauto|]. destruct Hk; subst k; unfold rule_kind; auto.
+  - destruct (affects_eg x); [|destruct Hin]. apply idx_names_In in Hin. destruct Hin as [k [j [Hk [_ E]]]].
+    subst n. rewrite parts_rule'; [eauto|]. destruct Hk; subst k; unfold rule_kind; auto.
+Qed.
+
+Lemma policy_names_nodup c x : NoDup (policy_names c x).
+Proof.
+  rewrite policy_names_eq.
+  assert (rule_kind (L "sip") /\ rule_kind (L "snet") /\ rule_kind (L "dip") /\ rule_kind (L "dnet")) as [K1 [K2 [K3 K4]]]
+    by (unfold rule_kind; repeat split; [left|right; left|right; right; left|right; right; right]; reflexivity).
+  assert (forall b k1 k2 rules n, rule_kind k1 -> rule_kind k2 ->
+            In n (if b : bool then idx_names c x k1 k2 0 rules else []) ->
+            exists k j, (k = k1 \/ k = k2) /\ name_parts n = Some (k, print_dec j, H (np_key x))) as Hp.
+  { intros b k1 k2 rules n R1 R2 Hin. destruct b; [|destruct Hin]. apply idx_names_In in Hin.
+    destruct Hin as [k [j [Hk [_ E]]]]. exists k, j. split; [exact Hk|]. subst n. apply parts_rule'.
+    destruct Hk; subst; assumption. }
+  constructor.
+  - intros Hin. apply in_app_or in Hin.
+    destruct Hin as [Hin|Hin]; apply Hp in Hin; try assumption; destruct Hin as [k [j [Hk P]]];
+      rewrite parts_sel in P; inversion P as [[Ek Ei]]; destruct Hk; subst k; discriminate.
+  - apply NoDup_app_intro.
+    + destruct (affects_in x); [apply idx_names_nodup; try assumption; discriminate|constructor].
+    + destruct (affects_eg x); [apply idx_names_nodup; try assumption; discriminate|constructor].
+    + intros n Ha Hb. apply Hp in Ha; try assumption. apply Hp in Hb; try assumption.
+      destruct Ha as [k [j [Hk P]]]. destruct Hb as [k' [j' [Hk' P']]]. rewrite P in P'. inversion P' as [[Ek Ei]].
+      destruct Hk; destruct Hk'; subst; discriminate.
+Qed.
+
+Lemma all_set_names_eq c : map cs_name (all_sets (compile H c)) = flat_map (policy_names c) (c_pols c).
+Proof.
+  unfold all_sets, compile. rewrite map_flat_map. induction (c_pols c) as [|x l IH]; [reflexivity|].
+  cbn [map flat_map]. rewrite IH. reflexivity.
+Qed.
+
+(** the compiled set names are pairwise distinct as soon as the hashes of the policy keys are *)
+Lemma set_names_distinct c :
+  NoDup (map (fun x => H (np_key x)) (c_pols c)) -> NoDup (map cs_name (all_sets (compile H c))).
+Proof.
+  intros Hnd. rewrite all_set_names_eq.
+  apply (NoDup_flat_map_keyed (policy_names c) (fun x => H (np_key x))
+           (fun n => match name_parts n with Some (_, _, h) => h | None => [] end)).
+  - exact Hnd.
+  - intros x _. apply policy_names_nodup.
+  - intros x n _ Hn. apply policy_names_parts in Hn. destruct Hn as [k [i P]]. rewrite P. reflexivity.
+Qed.
+End SetNames.
+
+(** ------------------------------------------------------------------ the fresh-node theorem under "the hash
+    does not collide on the policy keys and on this node's pod keys" *)
+Definition hash_distinct (H : str -> str) (host : str) (c : cluster) : bool :=
+  strs_nodup (map (fun x => H (np_key x)) (c_pols c)) &&
+  strs_nodup (map (fun p => H (pod_key p)) (local_pods host c)).
+
+Lemma NoDup_map_prefix (p : str) (l : list str) : NoDup l -> NoDup (map (app p) l).
+Proof. apply Injective_map_NoDup. intros a b E. apply app_inv_head in E. exact E. Qed.
+
+Lemma hash_distinct_names H host c : hash_distinct H host c = true -> names_distinct H host c = true.
+Proof.
+  unfold hash_distinct, names_distinct. rewrite !andb_true_iff, !strs_nodup_NoDup. intros [D1 D2].
+  split; [split|].
+  - apply set_names_distinct. exact D1.
+  - apply (NoDup_map_prefix (L "GLX-PLCY-")) in D1. rewrite map_map in D1. exact D1.
+  - apply (NoDup_map_prefix (L "GLX-POD-")) in D2. rewrite map_map in D2. exact D2.
+Qed.
+
+Theorem run_fresh_hash H host c k m :
+  fresh k = true -> hash_distinct H host c = true -> conflicting_flags H c = false ->
+  exists m' k', run H host c (m, k) = (m', k', true) /\ glx_exact H host c k' = true /\ foreign_same k k' = true.
+Proof. intros Hf Hd Hc. apply run_fresh; [exact Hf|apply hash_distinct_names; exact Hd|exact Hc]. Qed.
+
+Lemma c15_example_hash_l :
+  fresh w_k0 = true /\ hash_distinct idH w_host w5_c0 = true /\ conflicting_flags idH w5_c0 = false /\
+  List.length (all_sets (compile idH w5_c0)) = 3%nat /\ List.length (k_filter w_k0) = 4%nat.
+Proof. repeat split; vm_compute; reflexivity. Qed.
